@@ -70,19 +70,13 @@ def main():
     ck.functions |= {'solver::solve_expression', 'solver::match_all', 'solver::match_of', 'solver::search', 'solver::slow_aho',
                      'value::Value::*', 'value::Object::find', 'rule::Detection deserialiser + parser::parse_identifier/parse_mapping/parse + '
                      'identifier::into_identifier + tokeniser (native, through the bridge)'}
-    tpl = [t for t in templates.select(ck.tier, ck.seed) if t[0] not in ('nonpredicate',) and not ambiguous(t[2])]
+    tpl = [t for t in templates.select(ck.tier, ck.seed) if t[0] not in ('nonpredicate', 'undefined-ident') and not ambiguous(t[2])]
     if quick:
         import random
         rnd = random.Random(ck.seed + 2)
-        by = {}
-        for t in tpl:
-            by.setdefault(t[0], []).append(t)
         quota = {'single': 8, 'regex': 3, 'number': 5, 'list': 8, 'list-all': 6, 'list-of': 10, 'quant-short': 10, 'quant-ident': 10,
                  'cast-cond': 8, 'regex-rewrite': 3}
-        tpl = []
-        for fam, ts in by.items():
-            n = quota.get(fam)
-            tpl += ts if n is None or n >= len(ts) else rnd.sample(ts, n)
+        tpl = templates.thin(tpl, quota, rnd)
     ck.extra['templates'] = len(tpl)
     self_check(ck)
     ck.run_units([(name, rule) for _, name, rule in tpl], run_unit)
@@ -135,6 +129,32 @@ def run_unit(ck, unit):
     ck.extra['programs'] = ck.extra.get('programs', 0) + 1
     if v['res'] is None:
         return
+    # the compiled engines inside the loaded tree must be the ones their description says
+    unconfirmed, confirmed = set(), 0
+    for docj, what in probe_docs(r):
+        ck.obligations += 1
+        fld, val = docj['$obj'][0][0], docj['$obj'][0][1]['$str']
+        tr2 = TreeRunner(ck, Bounds(str_cap=max(1, len(val)), arr_cap=1, depth=1))
+        w2 = O.Oracle(tr2.uni, tr2.doc).rule(rule)
+        pins = []
+        for key, (present, cell) in tr2.doc.cells.items():
+            if key == bytes(fld):
+                pins += [present, cell.kind == 5, z3bool(S.s_eq(cell.s, bytes(val)))]
+            else:
+                pins.append(z3.Not(present))
+        res_, m_ = ck.solve(tr2.uni, *pins)
+        n = br.call(cmd='eval', yaml=yaml, opts=None, doc=docj, mode='flat')
+        path = ck.write_replay(safe(name) + '_engine', {'rule': yaml, 'doc': docj, 'what': what, 'native': n})
+        if res_ == 'sat' and 'verdict' in n:
+            wv = m_.eval(w2, model_completion=True).as_long()
+            if n['verdict'] != (wv == 0):
+                confirmed += 1
+                if confirmed == 1:
+                    ck.violations.append((path, '%s: %s; engine=%s reference=%s on %s' % (name, what, n['verdict'], SOLVER_RESULT[wv], json.dumps(docj))))
+                continue
+        unconfirmed.add('%s: %s (the model of this tree is not valid)' % (name, what))
+    if unconfirmed and not confirmed:
+        ck.inconclusive.append(sorted(unconfirmed)[0])
 
     def on_sat(model):
         docj = tr.render_doc(model)
